@@ -82,8 +82,19 @@ class Search(abc.ABC):
             str_current_time = time.strftime("%Y%m%d-%H%M%S")
             path_results_dirname = os.path.dirname(self._path_results)
             path_results_basename = os.path.basename(self._path_results)
-            path_results_basename = path_results_basename.replace(".", f"_{str_current_time}.")
-            path_results_renamed = os.path.join(path_results_dirname, path_results_basename)
+            path_results_renamed = os.path.join(
+                path_results_dirname,
+                path_results_basename.replace(".", f"_{str_current_time}."),
+            )
+            # The time has a resolution of one second: a counter is added to the name if it is
+            # already taken so that previous results are never overwritten by the renaming.
+            count_renamed = 0
+            while os.path.exists(path_results_renamed):
+                count_renamed += 1
+                path_results_renamed = os.path.join(
+                    path_results_dirname,
+                    path_results_basename.replace(".", f"_{str_current_time}_{count_renamed}."),
+                )
             logging.warning(
                 f"Results file already exists, it will be renamed to {path_results_renamed}"
             )
